@@ -38,13 +38,14 @@ def kind_of(name, prog_modules):
         return "module"
     if name == "hlp" or name.startswith("Imp"):
         return "alias"
-    if name.startswith("K") and name[1:4] in ("Cls", "Mix"):
+    if name.startswith("K") and name[1:4] in ("Cls", "Mix", "Cir", "Box", "Sha", "Squ"):
         return "class"
     for pre, k in (("pv_", "variable"), ("ua_", "variable"), ("ub_", "variable"), ("uc_", "variable"), ("ud_", "variable"),
                    ("fv_", "variable"), ("un_", "variable"), ("it_", "variable"), ("cm_", "variable"), ("cnt_", "variable"),
                    ("loc_", "variable"), ("par_", "parameter"), ("fun_", "function"), ("dfun_", "function"), ("deco_", "function"),
                    ("lam_", "function"), ("gen_", "function"), ("inner_", "function"), ("hfun_", "function"),
-                   ("iattr_", "attribute"), ("cattr_", "attribute"), ("meth_", "method")):
+                   ("iattr_", "attribute"), ("cattr_", "attribute"), ("meth_", "method"), ("area_", "duck-method"),
+                   ("duck_", "variable"), ("acc_", "variable")):
         if name.startswith(pre):
             return k
     if name in PARAMS:
